@@ -860,6 +860,153 @@ theorem check_file_reads_transparent (s : St) (trust : Bool) {snaps idx : List (
         (listWithSize L (listWithSize L (listWithSize L s .snapshot snaps) .snapshot snaps) .index idx) rfl hi
         (fun i d b hc hb hl => hh i d b (listWithSize_sub (listWithSize_sub (listWithSize_sub hc))) hb hl) hn h2
 
+/-! ### (8) transparency with ANYTHING at the cache locations of never-cached files
+
+`transparent` assumes `Inv = Coh ∧ NoEntry`: nothing lies at the cache location of a file that is never cached.  That hypothesis is not
+needed: coherence of the entries of the files that ARE cached (`CohOn`) is an invariant on its own and gives the same conclusion — so a
+history mixing cached and never-cached files is transparent whatever was planted at `<type>/<xx>/<id>` of the data packs, keys and the
+config file (the state seeded breakage C19-7 needs). -/
+
+def CohOn (L : Nat) (cbOf : Key → Bool) (s : St) : Prop :=
+  ∀ t id d, id.length = L → cacheOn cbOf t id = true → cHit s.dirs s.cache t id = some d → s.be (t, id) = some d
+
+theorem inv_cohOn {cbOf : Key → Bool} {s : St} (hi : Inv L cbOf s) : CohOn L cbOf s :=
+  fun t id d hl _ h => hi.1 t id d hl h
+
+theorem refilled_cohOn {cbOf : Key → Bool} {s s' : St} (hc : CohOn L cbOf s) {t : FileType} {id : Name} (hl : id.length = L)
+    (h : Refilled s s' t id) : CohOn L cbOf s' := by
+  rcases h with h | ⟨d, hb, h⟩
+  · subst h; exact hc
+  · subst h
+    intro t' id' d' hl' hon h'
+    simp only at h'
+    rw [cHit_cWrite s.dirs s.cache hl hl' d] at h'
+    by_cases e : (t' = t ∧ id' = id) ∧ writes s.dirs s.cache t id = true
+    · rw [if_pos e] at h'; cases h'; rw [e.1.1, e.1.2]; exact hb
+    · rw [if_neg e] at h'; exact hc t' id' d' hl' hon h'
+
+theorem read_preserves_on {cbOf : Key → Bool} {s : St} (hi : CohOn L cbOf s) (t : FileType) {id : Name} (hl : id.length = L) :
+    (readFull s t id).1 = beReadFull s.be t id ∧ (readFull s t id).2.be = s.be ∧ CohOn L cbOf (readFull s t id).2 := by
+  refine ⟨?_, (refilled_be (readFull_state s t id).1).1, refilled_cohOn hi hl (readFull_state s t id).1⟩
+  by_cases ht : isCacheable t = true
+  · exact entry_coherent_read_equiv (fun d h => hi t id d hl (by simp [cacheOn, ht]) h)
+  · rw [noncacheable_read_bypasses_cache s (by simpa using ht) id]
+
+theorem ranged_read_preserves_on {cbOf : Key → Bool} {s : St} (hi : CohOn L cbOf s) (t : FileType) {id : Name}
+    (hl : id.length = L) (off len : Nat) (hlen : 0 < len) :
+    (readPartial s t id (cbOf (t, id)) off len).1 = beReadPartial s.be t id off len ∧
+    (readPartial s t id (cbOf (t, id)) off len).2.be = s.be ∧
+    CohOn L cbOf (readPartial s t id (cbOf (t, id)) off len).2 := by
+  refine ⟨?_, (refilled_be (readPartial_state s t id _ off len).1).1,
+          refilled_cohOn hi hl (readPartial_state s t id _ off len).1⟩
+  by_cases hon : cacheOn cbOf t id = true
+  · exact prefix_entry_ranged_read_equiv (fun d' h' => ⟨d', hi t id d' hl hon h', (List.take_length).symm⟩) _ off hlen
+  · have hoff : cbOf (t, id) = false ∧ isCacheable t = false := by simpa [cacheOn] using hon
+    rw [hoff.1, noncacheable_read_partial_bypasses_cache s hoff.2 id off len]
+
+theorem write_preserves_on {cbOf : Key → Bool} {s : St} (hi : CohOn L cbOf s) (t : FileType) {id : Name}
+    (hl : id.length = L) (d : Bytes)
+    (hw : tmpBlocked s.dirs s.cache t id = true → ∀ d0, cHit s.dirs s.cache t id = some d0 → d0 = d) :
+    CohOn L cbOf (writeBytes s t id (cbOf (t, id)) d) := by
+  unfold writeBytes
+  by_cases hcb : (cbOf (t, id) || isCacheable t) = true
+  · simp only [hcb, if_true]
+    intro t' id' d' hl' hon h'
+    simp only at h' ⊢
+    rw [cHit_cWrite s.dirs s.cache hl hl' d] at h'
+    by_cases e : t' = t ∧ id' = id
+    · obtain ⟨e1, e2⟩ := e; subst e1; subst e2
+      have hbe : s.be.write (t', id') d (t', id') = some d := by simp [SpecMap.write]
+      by_cases hwr : writes s.dirs s.cache t' id' = true
+      · simp [hwr] at h'; subst h'; exact hbe
+      · rw [if_neg (fun h => hwr h.2)] at h'
+        by_cases htmp : tmpBlocked s.dirs s.cache t' id' = true
+        · rw [hw htmp d' h']; exact hbe
+        · simp only [tmpBlocked, Bool.or_eq_true, not_or, Bool.not_eq_true] at htmp
+          cases hp : parentObj s.cache t' id' with
+          | some b => rw [cHit_of_parent _ (by rw [hp]; rfl)] at h'; cases h'
+          | none =>
+            have hdir : hasDir s.dirs (cpath t' id') = true := by
+              simp only [writes, hp, htmp.1, htmp.2, Option.isNone_none, Bool.not_false, Bool.true_and,
+                Bool.not_eq_eq_eq_not, Bool.not_true] at hwr
+              simpa using hwr
+            rw [cHit_of_dir _ hdir] at h'; cases h'
+    · have e' : ¬((t' = t ∧ id' = id) ∧ writes s.dirs s.cache t id = true) := fun h => e h.1
+      rw [if_neg e'] at h'
+      have hne : (t', id') ≠ (t, id) := fun h => e (by cases h; exact ⟨rfl, rfl⟩)
+      simp only [SpecMap.write, hne, if_false]
+      exact hi t' id' d' hl' hon h'
+  · simp only [hcb, Bool.false_eq_true, ↓reduceIte]
+    have hoff : cacheOn cbOf t id = false := by simpa [cacheOn] using hcb
+    intro t' id' d' hl' hon h'
+    simp only [SpecMap.write] at h' ⊢
+    by_cases e : (t', id') = (t, id)
+    · cases e; rw [hoff] at hon; cases hon
+    · simp [e]; exact hi t' id' d' hl' hon h'
+
+theorem remove_preserves_on {cbOf : Key → Bool} {s : St} (hi : CohOn L cbOf s) (t : FileType) {id : Name}
+    (_ : id.length = L) : CohOn L cbOf (remove s t id (cbOf (t, id))) := by
+  unfold remove
+  by_cases hcb : (cbOf (t, id) || isCacheable t) = true
+  · simp only [hcb, if_true]
+    intro t' id' d' hl' hon h'
+    simp only [SpecMap.remove] at h' ⊢
+    rw [cHit_cRemove] at h'
+    by_cases e : t' = t ∧ id' = id
+    · simp [e] at h'
+    · simp [e] at h'
+      have : (t', id') ≠ (t, id) := fun h => e (by cases h; exact ⟨rfl, rfl⟩)
+      simp [this]; exact hi t' id' d' hl' hon h'
+  · simp only [hcb, Bool.false_eq_true, ↓reduceIte]
+    have hoff : cacheOn cbOf t id = false := by simpa [cacheOn] using hcb
+    intro t' id' d' hl' hon h'
+    simp only [SpecMap.remove] at h' ⊢
+    by_cases e : (t', id') = (t, id)
+    · cases e; rw [hoff] at hon; cases hon
+    · simp [e]; exact hi t' id' d' hl' hon h'
+
+theorem ops_preserve_cohOn {cbOf : Key → Bool} {s : St} (hi : CohOn L cbOf s) (op : Op)
+    (hop : OpOK L cbOf s.dirs s.cache op) :
+    (stepC L s op).1 = (stepU s.be op).1 ∧ (stepC L s op).2.be = (stepU s.be op).2 ∧ CohOn L cbOf (stepC L s op).2 := by
+  cases op with
+  | read t id =>
+    obtain ⟨h1, h2, h3⟩ := read_preserves_on hi t hop
+    exact ⟨by simp [stepC, stepU, h1], by simp [stepC, stepU, h2], h3⟩
+  | readPartial t id cb off len =>
+    obtain ⟨hl, hcb, hlen⟩ := hop
+    subst hcb
+    obtain ⟨h1, h2, h3⟩ := ranged_read_preserves_on hi t hl off len hlen
+    exact ⟨by simp [stepC, stepU, h1], by simp [stepC, stepU, h2], h3⟩
+  | write t id cb d =>
+    obtain ⟨hl, hcb, hw⟩ := hop
+    subst hcb
+    exact ⟨rfl, rfl, write_preserves_on hi t hl d (fun h => by rw [hw] at h; cases h)⟩
+  | remove t id cb =>
+    obtain ⟨hl, hcb⟩ := hop
+    subst hcb
+    exact ⟨rfl, rfl, remove_preserves_on hi t hl⟩
+  | list t a => exact ⟨rfl, rfl, fun t' id' d' hl' hon h' => hi t' id' d' hl' hon (listWithSize_sub h')⟩
+
+/-- **Transparency, whatever lies at the cache locations of never-cached files** (`transparent` without `NoEntry`). -/
+theorem transparent_any_noncacheable_entries {cbOf : Key → Bool} (ops : List Op) (s : St)
+    (hops : ∀ op ∈ ops, OpOK L cbOf s.dirs s.cache op) (hi : CohOn L cbOf s) :
+    (runC L s ops).1 = (runU s.be ops).1 ∧ (runC L s ops).2.be = (runU s.be ops).2 ∧ CohOn L cbOf (runC L s ops).2 := by
+  induction ops generalizing s with
+  | nil => exact ⟨rfl, rfl, hi⟩
+  | cons op rest ih =>
+    obtain ⟨h1, h2, h3⟩ := ops_preserve_cohOn hi op (hops op List.mem_cons_self)
+    have hd := dirs_constant (L := L) s op
+    obtain ⟨g1, g2, g3⟩ := ih (stepC L s op).2
+      (fun o ho => by rw [hd]; exact opOK_mono (fun p hp => dangling_shrink s op hp) (hops o (List.mem_cons_of_mem _ ho))) h3
+    simp only [runC, runU]
+    rw [h2] at g1 g2
+    exact ⟨by rw [h1, g1], g2, g3⟩
+
+/-- a cache directory that holds files ONLY at locations of never-cached files is `CohOn` for every repository -/
+theorem foreign_noncacheable_entries_cohOn (cbOf : Key → Bool) (s : St)
+    (h : ∀ t id, id.length = L → cacheOn cbOf t id = true → cHit s.dirs s.cache t id = none) : CohOn L cbOf s :=
+  fun t id d hl hon hc => by rw [h t id hl hon] at hc; cases hc
+
 /-! ### non-vacuity / witnesses -/
 
 def idA : Name := List.replicate 64 'a'
@@ -956,5 +1103,15 @@ example (trust : Bool) :
     checkCacheFilesPack 64 s = [.cacheMismatch idA, .errorReadingFile idB] ∧
     checkCacheFilesPack 64 (checkCleanup 64 s trust [] [] [(idA, 4)]) = [] := by
   cases trust <;> decide
+
+/-- `CohOn` does not care what lies at the location of the data pack `idA` (`cbOf` = never cacheable) — `Inv` would be false here -/
+example :
+    let s : St := { be := bePack, cache := { files := [(cpath .pack idA, [9, 9, 9, 9, 9])] } }
+    CohOn 64 (fun _ => false) s ∧ ¬ Inv 64 (fun _ => false) s := by
+  refine ⟨foreign_noncacheable_entries_cohOn _ _ (fun t id _ hon => ?_), fun h => ?_⟩
+  · cases t <;> simp [cacheOn, isCacheable] at hon <;> simp [cHit, parentObj, parentAt, lget, fget, hasDir, entryBytes, cpath,
+      FileType.dirname, nSnapshots, nIndex] <;> (intro h; exact absurd h (by decide))
+  · have := h.2 .pack idA (by decide) (by decide)
+    revert this; decide
 
 end Rustic.Props.C19
